@@ -1,5 +1,5 @@
 SPECIFICATION TraceSpec
 CONSTANTS
-  Fix = {"tail", "suffix", "epoch"}
+  Fix <- FixRepo
 POSTCONDITION Done
 CHECK_DEADLOCK FALSE
